@@ -103,6 +103,10 @@ pub fn lockstep(c: &StateCase, st: &mut Stats, per_step: &mut dyn FnMut(&mut Rig
         if !matches!(out, StepOut::Ok) {
             break;
         }
+        if r.info.writes.contains(&MCR_ADDR) && !r.mcr {
+            // the OS HALT routine cleared the MCR: the machine has stopped
+            break;
+        }
     }
     // complete memory at the end of the case
     let mut all = 0..=u16::MAX;
@@ -127,6 +131,38 @@ pub fn check_case(c: &StateCase, st: &mut Stats) -> Result<(), String> {
     Ok(())
 }
 
+/// C08(b): generated user programs on the real OS, stepped to completion in lock step.
+pub fn check_prog(tape: &[u32], st: &mut Stats) -> Result<(), String> {
+    use crate::gen::exec::{gen_exec, ExecCfg};
+    let mut t = Tape::new(tape);
+    let Some(p) = gen_exec(&mut t, &ExecCfg::default()) else {
+        st.class("prog-offset-overflow");
+        return Ok(());
+    };
+    let real = t.chance(1, 2);
+    let init = if t.chance(1, 2) { lc3_ensemble::sim::mem::MachineInitStrategy::Seeded { seed: t.raw() as u64 } } else { lc3_ensemble::sim::mem::MachineInitStrategy::Known { value: 0 } };
+    let spec = spec_for_prog(&p, real, t.chance(1, 2), init);
+    let steps = 30_000;
+    let mut plan = vec![None; steps];
+    if t.chance(1, 3) {
+        for _ in 0..t.pick(4) {
+            let at = t.pick(400);
+            plan[at] = Some((0x80 + t.pick(3) as u8, 1 + t.pick(7) as u8));
+        }
+    }
+    let c = StateCase { spec, plan, steps };
+    lockstep(&c, st, &mut |_, _, _| Ok(()))?;
+    st.class(&format!("prog-ending:{:?}:{}", p.ending, if real { "real" } else { "virtual" }));
+    st.nontrivial(&p.words);
+    Ok(())
+}
+
+pub fn describe_prog_case(tape: &[u32]) -> Value {
+    use crate::gen::exec::{gen_exec, ExecCfg};
+    let mut t = Tape::new(tape);
+    gen_exec(&mut t, &ExecCfg::default()).map(|p| describe_prog(&p)).unwrap_or(Value::Null)
+}
+
 pub fn describe(tape: &[u32]) -> Value {
     let mut t = Tape::new(tape);
     let c = gen_state(&mut t, false);
@@ -146,6 +182,10 @@ pub fn run(ctx: &Ctx) -> Outcome {
     let cfg = TapeCfg::new(ctx, 6000, 400_000, 400);
     out.shards = cfg.shards;
     out.absorb(tape_search(ctx, "states", &cfg, check, describe));
+    if !out.failed() {
+        let cfg2 = TapeCfg::new(ctx, 300, 20_000, 600);
+        out.absorb(tape_search(ctx, "programs", &cfg2, check_prog, describe_prog_case));
+    }
     out.essential = [
         "BR:ok", "ADD:ok", "AND:ok", "NOT:ok", "LEA:ok", "LD:ok", "LD:Acv", "LD:real-Acv", "ST:ok", "ST:Acv", "LDR:ok", "LDR:Acv", "STR:ok", "STR:Acv", "LDI:ok", "LDI:Acv", "STI:ok", "STI:Acv",
         "JMP:ok", "JSR:ok", "JSRR:ok", "TRAP:ok", "TRAP:halt", "RTI:ok", "RTI:Privilege", "RTI:real-Privilege",
@@ -162,6 +202,10 @@ pub fn run(ctx: &Ctx) -> Outcome {
 pub fn replay(_ctx: &Ctx, case: &Value, st: &mut Stats) -> Result<(), String> {
     if case.get("state").is_some() {
         return check_case(&case_from_json(&case["state"])?, st);
+    }
+    if case["sub"].as_str() == Some("programs") {
+        let tape: Vec<u32> = serde_json::from_value(case["tape"].clone()).map_err(|e| e.to_string())?;
+        return check_prog(&tape, st);
     }
     let tape: Vec<u32> = serde_json::from_value(case["tape"].clone()).map_err(|e| e.to_string())?;
     check(&tape, st)
